@@ -316,6 +316,39 @@ fn case(bytes: &[u8], col: &mut Collector) -> Result<(), Failure> {
             if ch.chance(64) && mul_pt(&r, &Some((px.clone(), py.clone())), &a, &q).is_some() {
                 return Err(Failure::new("C14:rP-own", "r * P is not the identity for a curve point P (own affine arithmetic): the group order is not r", json!({"x": px.to_string(), "y": py.to_string()})));
             }
+            // multiples by integers beyond r (top bit of the fourth limb set, five limbs): since the
+            // group has exactly r elements, k·P depends on k mod r only
+            if ch.chance(110) {
+                let seed = ch.u16() as u64;
+                let nl = if ch.chance(128) { 4 } else { 5 };
+                let mut limbs: Vec<u64> = (0..nl).map(|i| (seed + 1 + i as u64).wrapping_mul(0x9e37_79b9_7f4a_7c15).rotate_left(11 * (i as u32 + 1))).collect();
+                match ch.below(4) {
+                    0 => limbs = { let mut v = (&r + BigUint::from(1 + ch.byte() as u32)).to_u64_digits(); v.resize(nl.max(v.len()), 0); v }, // r + small
+                    1 => limbs = { let mut v = vec![0u64; nl]; v[3] = 1 << 63; v[0] = ch.byte() as u64; v }, // 2^255 + small
+                    2 => *limbs.last_mut().unwrap() |= 1 << 63,
+                    _ => {}
+                }
+                let kbig = limbs.iter().rev().fold(BigUint::from(0u32), |acc, l| (acc << 64) + BigUint::from(*l));
+                let kred = &kbig % &r;
+                let kred_limbs: Vec<u64> = { let mut v = kred.to_u64_digits(); v.resize(4, 0); v };
+                let got = p.mul_bigint(&limbs).into_affine();
+                let want = p.mul_bigint(&kred_limbs).into_affine();
+                let own_differs = ch.chance(40) && {
+                    let o = mul_pt(&kbig, &Some((px.clone(), py.clone())), &a, &q);
+                    match o {
+                        None => !got.is_zero(),
+                        Some((ox, oy)) => got.is_zero() || big(&got.x) != ox || big(&got.y) != oy,
+                    }
+                };
+                if got != want || own_differs {
+                    return Err(Failure::new(
+                        "C14:multiple-depends-on-more-than-k-mod-r",
+                        format!("k * P for the {}-limb integer k = {} differs from (k mod r) * P: multiples do not form a group of r elements", nl, kbig),
+                        json!({"x": px.to_string(), "y": py.to_string(), "k": kbig.to_string()}),
+                    ));
+                }
+                col.class("point:multiples-beyond-r");
+            }
             col.class(if from_x { "point:from-random-x" } else { "point:k*G" });
             col.nontrivial(fp_of(&("pt", px.to_string())));
             col.sample(true, || json!({"point_x": px.to_string(), "r_times_P": "identity"}));
